@@ -189,6 +189,14 @@ def add_request_safe(sim: SimulationState, request: Request) -> ResultE[Simulati
             SimulationStateError(f"origin {request.origin} not within road network geofence")
         )
     else:
+        if request.id in sim.requests:
+            # the id is in use: the request replaces the one that carries it, whose origin leaves
+            # the location indexes first (it would stay behind as a stale entry otherwise)
+            removed = remove_request_safe(sim, request.id)
+            if isinstance(removed, Failure):
+                return removed
+            sim = removed.unwrap()
+
         search_geoid = h3.h3_to_parent(request.geoid, sim.sim_h3_search_resolution)
 
         updated_sim = sim._replace(
@@ -314,6 +322,14 @@ def add_vehicle_safe(sim: SimulationState, vehicle: Vehicle) -> ResultE[Simulati
         )
         return Failure(error)
     else:
+        if vehicle.id in sim.vehicles:
+            # the id is in use: the vehicle replaces the one that carries it, whose position leaves
+            # the location indexes first (it would stay behind as a stale entry otherwise)
+            removed = remove_vehicle_safe(sim, vehicle.id)
+            if isinstance(removed, Failure):
+                return removed
+            sim = removed.unwrap()
+
         search_geoid = h3.h3_to_parent(vehicle.geoid, sim.sim_h3_search_resolution)
         updated_v_locations = DictOps.add_to_collection_dict(
             sim.v_locations, vehicle.geoid, vehicle.id
@@ -479,6 +495,13 @@ def add_station_safe(sim: SimulationState, station: Station) -> ResultE[Simulati
             f"cannot add station {station.id} to sim: not within road network geofence"
         )
         return Failure(error)
+    elif station.id in sim.stations and sim.stations[station.id].geoid != station.geoid:
+        # stations do not move (modify_station_safe refuses it as well): the old location would
+        # stay behind in the location indexes
+        error = SimulationStateError(
+            f"cannot add station {station.id} to sim: the id is in use at another location"
+        )
+        return Failure(error)
     else:
         search_geoid = h3.h3_to_parent(station.geoid, sim.sim_h3_search_resolution)
         updated_s_locations = DictOps.add_to_collection_dict(
@@ -588,6 +611,13 @@ def add_base_safe(sim: SimulationState, base: Base) -> ResultE[SimulationState]:
     if not sim.road_network.geoid_within_geofence(base.geoid):
         error = SimulationStateError(
             f"cannot add base {base.id} to sim: not within road network geofence"
+        )
+        return Failure(error)
+    elif base.id in sim.bases and sim.bases[base.id].geoid != base.geoid:
+        # bases do not move (modify_base_safe refuses it as well): the old location would stay
+        # behind in the location indexes
+        error = SimulationStateError(
+            f"cannot add base {base.id} to sim: the id is in use at another location"
         )
         return Failure(error)
     else:
